@@ -224,6 +224,12 @@ def _run(prop, units, tier, seed, work, t0):
             evidence_units.append(kr['evidence'])
             if kr.get('extra'):
                 extra_info[name] = kr['extra']
+            if tier == 'thorough' and not kr['failures']:
+                from .kani_backend import thorough_kani
+                ti = thorough_kani(u, seed, work)
+                extra_info[name] = ti
+                if ti.get('degraded'):
+                    raise Undecided('%s: %s' % (name, ti['degraded']))
         else:
             raise Undecided('unknown backend %s' % u['backend'])
 
